@@ -341,6 +341,24 @@ struct C10Ctx
    std::string ut, phase, fam;
    double eps0 = 1e-16;
    int nupd = 0;
+   bool exactCap = false;     // result vectors with index capacity exactly dim (SSVectorBase(dim) as a stand-alone user creates them)
+   // growth of the factors as reported by the factorisation itself (1/stability(), >= 1); SPxBasisBase refactorises below minStab ~ 1e-6,
+   // so the drivers keeps it <= ~1e7.  Rounding level after updates = unit roundoff x growth.
+   double growth() const
+   {
+      double s = (double)F->stability();
+      return (s > 0 && s < 1) ? 1.0 / s : 1.0;
+   }
+   // semi-sparse vectors are built in place (the copy constructor would shrink the index capacity to dim): either as the solver's
+   // own vectors (created empty, then reDim(): index capacity >= dim + 1) or with index capacity exactly dim
+   void initSS(SSVectorBase<double>& v) const
+   {
+      if(!exactCap) v.reDim(E->n);
+   }
+   int ssDim() const
+   {
+      return exactCap ? E->n : 0;
+   }
    std::string cell() const
    {
       return "{utype=" + ut + ",phase=" + phase + "}";
@@ -482,9 +500,13 @@ static void judge(C10Ctx& C, bool left, RhsV& b, bool wantFwd, const std::vector
    Q xn = vinf(xq), bn = vinf(b.q);
    // rounding level 1e-9 relative (DESIGN C10) + the absolute zero tolerance `epsilon` (1e-16) with which the solves drop entries
    Q allow = qd(64.0 * n * C.eps0) * (normM + qd(1.0 / (double)C.F->markowitz()));
-   Q thr = qd(1e-9) * (normM * xn + bn) + allow;
+   double rho = C.growth();
+   Q thr = qd(std::max(1e-9, 2e-12 * rho)) * (normM * xn + bn) + allow;
    double ratio = dq(rmax) / dq(thr);
    S.maxi(std::string("c10.resid/thr.") + (left ? "left." : "right.") + C.phase, ratio);
+   S.maxi(std::string("c10.resid/1e-9scale.") + C.phase, dq(rmax) / dq(Q(qd(1e-9) * (normM * xn + bn) + allow)));
+   S.maxi("c10.growth_log10", std::log10(rho));
+   if(verbose) fprintf(stderr, "  judge %-32s %s upd=%d resid=%.3g thr=%.3g ratio=%.3g |x|=%.3g |b|=%.3g\n", (variant + view).c_str(), C.phase.c_str(), C.nupd, dq(rmax), dq(thr), ratio, dq(xn), dq(bn));
    if(rmax > thr)
    {
       S.viol("C10:" + variant + ":residual" + view + ":" + C.cell(),
@@ -562,8 +584,9 @@ static void agree(C10Ctx& C, bool left, const std::vector<double>& multi, const 
       if(!(d <= diff)) diff = d;   // NaN-propagating
    }
    double cond = std::max(1.0, E.cond());
-   double thr = 1e-12 * cond * sc + 100.0 * E.n * C.eps0 * std::max(1.0, dq(left ? E.iOne : E.iInf)) / (double)C.F->markowitz();
+   double thr = std::max(1e-12, 5e-14 * C.growth()) * cond * sc + 100.0 * E.n * C.eps0 * std::max(1.0, dq(left ? E.iOne : E.iInf)) / (double)C.F->markowitz();
    S.maxi("c10.agree/thr", diff / thr);
+   if(verbose) fprintf(stderr, "  agree %-32s %s diff=%.3g thr=%.3g scale=%.3g cond=%.3g\n", variant.c_str(), which, diff, thr, sc, cond);
    if(!(diff <= thr))
       S.viol("C10:" + variant + ":disagrees-with-single." + which + ":" + C.cell(), std::string("result ") + which + " differs from the single solve of the same right-hand side by " + ds(diff) + " (scale " + ds(sc) + ", cond " + ds(cond) + ")", C.replay());
 }
@@ -590,7 +613,8 @@ static void runVariant(C10Ctx& C, Rng& g, int v, RhsV* forced, SSVectorBase<doub
    std::string name = VARNAME[v];
    auto pickKind = [&](bool needSparseish) { int k = g.range(0, 9); return k < 3 ? 0 : k < 5 ? 1 : k < 7 ? 2 : needSparseish ? (k == 7 ? 0 : 4) : (k == 7 ? 3 : 4); };
    RhsV b1 = forced ? *forced : makeRhs(g, E, left, (v == R_DENSE || v == L_DENSE || v == R_SS || v == L_SS) ? (g.chance(0.5) ? 3 : pickKind(false)) : pickKind(true));
-   SSVectorBase<double> xloc(n, C.tol);
+   SSVectorBase<double> xloc(C.ssDim(), C.tol);
+   C.initSS(xloc);
    SSVectorBase<double>& x = xpersist ? *xpersist : xloc;
    switch(v)
    {
@@ -608,7 +632,8 @@ static void runVariant(C10Ctx& C, Rng& g, int v, RhsV* forced, SSVectorBase<doub
    case R_SS:
    case L_SS:
    {
-      SSVectorBase<double> bs(n, C.tol);
+      SSVectorBase<double> bs(C.ssDim(), C.tol);
+      C.initSS(bs);
       fillSS(bs, b1);
       if(left) F.solveLeft(x, (const SSVectorBase<double>&)bs);
       else F.solveRight(x, (const SSVectorBase<double>&)bs);
@@ -635,7 +660,10 @@ static void runVariant(C10Ctx& C, Rng& g, int v, RhsV* forced, SSVectorBase<doub
       bool sparseOut = v == R_2UPD_S || v == R_3UPD_S || v == L_2_S || v == L_3_S;
       RhsV b2 = makeRhs(g, E, left, pickKind(true)), b3 = makeRhs(g, E, left, pickKind(true));
       DSVectorBase<double> s1 = toSV(b1), s2 = toSV(b2), s3 = toSV(b3);
-      SSVectorBase<double> r1(n, C.tol), r2(n, C.tol), r3(n, C.tol);
+      SSVectorBase<double> r1(C.ssDim(), C.tol), r2(C.ssDim(), C.tol), r3(C.ssDim(), C.tol);
+      C.initSS(r1);
+      C.initSS(r2);
+      C.initSS(r3);
       if(left)
       {
          F.solveLeft(r1, (const SVectorBase<double>&)s1);
@@ -649,13 +677,17 @@ static void runVariant(C10Ctx& C, Rng& g, int v, RhsV* forced, SSVectorBase<doub
          if(three) F.solveRight(r3, (const SVectorBase<double>&)s3);
       }
       std::vector<double> ref1 = valsOf(r1), ref2 = valsOf(r2), ref3 = valsOf(r3);
-      SSVectorBase<double> d(n, C.tol), e(n, C.tol);
+      SSVectorBase<double> d(C.ssDim(), C.tol), e(C.ssDim(), C.tol);
+      C.initSS(d);
+      C.initSS(e);
       fillSS(d, b2);
       fillSS(e, b3);
       std::vector<double> y, z;
       if(sparseOut)
       {
-         SSVectorBase<double> ys(n, C.tol), zs(n, C.tol);
+         SSVectorBase<double> ys(C.ssDim(), C.tol), zs(C.ssDim(), C.tol);
+         C.initSS(ys);
+         C.initSS(zs);
          if(v == R_2UPD_S) F.solve2right4update(x, ys, s1, d);
          else if(v == R_3UPD_S) F.solve3right4update(x, ys, zs, s1, d, e);
          else if(v == L_2_S) F.solveLeft(x, ys, s1, d);
@@ -884,7 +916,13 @@ static void caseC10(long long k, Rng& g)
    double stab0 = (double)F.stability();
    S.count("c10.stability.read");
    if(!(stab0 >= 0 && stab0 <= 1)) S.count("c10.stability.out_of_unit_interval");
-   SSVectorBase<double> xpersist(n, tol);
+#if defined(__SANITIZE_ADDRESS__)
+   // exact-capacity result vectors only where an out-of-bounds index write is reported instead of corrupting the heap
+   C.exactCap = (k / (2 * nf)) % 8 == 3;
+#endif
+   if(C.exactCap) S.count("c10.result_vectors.exact_capacity_cases");
+   SSVectorBase<double> xpersist(C.ssDim(), tol);
+   C.initSS(xpersist);
    probe(C, g, NVAR, &xpersist);
 
    // ---------------- update history, driven like SPxBasisBase::change(): solve*4update(x, enterVec, ...) then change(i, enterVec, eta)
@@ -961,7 +999,8 @@ static void caseC10(long long k, Rng& g)
       static const int UPDV[5] = {R_4UPD, R_2UPD_D, R_2UPD_S, R_3UPD_D, R_3UPD_S};
       int uv = g.chance(0.5) ? R_4UPD : UPDV[g.range(1, 4)];
       bool usePersist = g.chance(0.7);
-      SSVectorBase<double> xl(n, tol);
+      SSVectorBase<double> xl(C.ssDim(), tol);
+      C.initSS(xl);
       SSVectorBase<double>& x = usePersist ? xpersist : xl;
       runVariant(C, g, uv, &ent, &x, true);
       S.count(std::string("c10.update.via.") + VARNAME[uv] + "." + ut);
@@ -987,6 +1026,7 @@ static void caseC10(long long k, Rng& g)
       S.count("c10.updates_applied");
       S.count("c10.updates_applied." + ut);
       int stNow = (int)F.status();
+      if(verbose) fprintf(stderr, "step %d: replaced column %d via %s, status %d threw %d stability %.3g cond %.3g pivot %.3g chain %d\n", step, r, VARNAME[uv], stNow, (int)threw, stNow == 0 ? (double)F.stability() : -1.0, E.cond(), dq(alpha[(size_t)r]), sinceRefac);
       bool wc = E.cond() <= 1e8 && E.iInf <= qd(1e5);
       bool refac = false;
       if(threw || stNow != (int)SLinSolver<double>::OK)
